@@ -63,8 +63,6 @@ class RefPG:
             raise OutOfScope('clone-absent-source')
         if k == 'clone' and live(op[2]):
             raise OutOfScope('reimport-live')
-        if k == 'matching' and not live(op[2]):
-            raise OutOfScope('matching-absent-partner')
 
     def step(self, op):
         """-> result (canonical rval) or raises Raised"""
@@ -211,7 +209,6 @@ def lock_oracle(ops, obs):
     dsn = sc.snapshots(do, [])
     ref = RefPG()
     live = True            # three-way comparison still meaningful
-    known = None           # first documented / recorded difference met
     clean = True           # no identity rewriting / malformed import so far (NodeID uniqueness must hold)
     prev_s = {}
     for i, op in enumerate(ops):
@@ -252,6 +249,10 @@ def lock_oracle(ops, obs):
                     if p == 'Class' and a != 'ABSENT' and b != a and not (k == 'merge' and rs[0] == 'err'):
                         return 'class-change: shared step %d %s changed the class of a node' % (i, k)
         # ---- merge_nodes on the shared store
+        if k == 'merge' and rs[0] == 'err' and rs[1] == 'EKey' and i > 0 and op[1] != op[3]:
+            why = needless_keyerror(op, ssn[i - 1])
+            if why:
+                return 'merge: step %d %s' % (i, why)
         if k == 'merge' and rs[0] == 'err' and so[i]['s'] is not None:
             return 'merge-partial: step %d merge_nodes raised %s after changing the store' % (i, rs[2])
         if k == 'merge' and rs[0] == 'ok' and i > 0 and op[1] != op[3]:
@@ -282,18 +283,29 @@ def lock_oracle(ops, obs):
                             break
                 if bad:
                     return bad
-            except OutOfScope as e:
+            except OutOfScope:
+                # merge / identity rewriting, or a storage operation on which the two flavours are documented to
+                # differ (import / clone onto a live id, clone of a graph without nodes): outside C05's quantifier;
+                # the three-way comparison stops here, the per-backend checks go on
                 live = False
-                what = str(e)
-                if what in ('reimport-live', 'clone-absent-source', 'matching-absent-partner'):
-                    # the backends are recorded to differ here; report it only if they really do
-                    differ = (rs[0] != rd[0]) or (rs[0] == 'ok' and rs[1] != rd[1]) or \
-                             {g: sc.api_view(v) for g, v in vs.items()} != {g: sc.api_view(v) for g, v in vd.items()}
-                    if differ and known is None:
-                        known = 'backends-differ:%s: step %d %s: shared %s, disjoint %s' % (
-                            what, i, k, json.dumps(rs[:2] if rs[0] == 'ok' else rs[2]),
-                            json.dumps(rd[:2] if rd[0] == 'ok' else rd[2]))
-    return known
+    return None
+
+
+def needless_keyerror(op, before):
+    """merge_nodes raised KeyError: legitimate only if an 'overwrite'/'combine' policy names a property of the caller's
+    node that the other graph's node lacks"""
+    g, n, g2, pol = sc.SYM[op[1]], sc.SYM[op[2]], sc.SYM[op[3]], op[4] or {}
+    def node_of(gid):
+        m = [x for x in before[0] if sc.pget(x[1], sc.GID) == gid and sc.pget(x[1], sc.NID) == n]
+        return m[0] if len(m) == 1 else None
+    u, v = node_of(g), node_of(g2)
+    if u is None or v is None:
+        return None
+    mine, other = {a: b for a, b in u[1]}, {a: b for a, b in v[1]}
+    needed = [kk for kk in mine if pol.get(sc.UNSYM[kk]) in ('overwrite', 'combine') and kk not in other]
+    if not needed:
+        return 'merge_nodes raised KeyError although every property its policy needs from the other node is present'
+    return None
 
 
 def merge_oracle(op, before, after):
@@ -534,28 +546,6 @@ class C05(Check):
         'merge_nodes; histories are compared three ways up to the first such operation, the storage models are compared '
         'with their implementations on the whole history',
     ]
-
-    def refuted_witnesses(self):
-        def run(ops, expect_tag):
-            def f():
-                obs = {'shared': sc.run_history('shared', ops), 'disjoint': sc.run_history('disjoint', ops)}
-                why = lock_oracle(ops, obs)
-                return (bool(why) and expect_tag in why, {'ops': ops, 'oracle': why,
-                                                           'shared': [o['r'] for o in obs['shared']],
-                                                           'disjoint': [o['r'] for o in obs['disjoint']]})
-            return f
-        return [
-            ('C05_agree_matching_absent_partner_refuted',
-             run([['add_node', 'g0', 'n0', 'c0', None], ['matching', 'g0', 'g1']], 'matching-absent-partner')),
-            ('C05_agree_reimport_live_refuted',
-             run([['add_node', 'g0', 'n0', 'c0', None],
-                  ['import', 'g0', [[1, {'NodeID': 'n1', 'Class': 'c0'}]], []], ['list_ids', 'g0']], 'reimport-live')),
-            ('C05_agree_clone_absent_source_refuted',
-             run([['clone', 'g0', 'g1']], 'clone-absent-source')),
-            ('C05_merge_atomic_refuted',
-             run([['add_node', 'g0', 'n0', 'c0', {'p0': 'v0'}], ['add_node', 'g1', 'n0', 'c0', None],
-                  ['merge', 'g0', 'n0', 'g1', {'p0': 'overwrite'}], ['graph_exists', 'g0']], 'merge-partial')),
-        ]
 
 
 if __name__ == '__main__':
